@@ -40,7 +40,10 @@ ASSUMPTIONS = [
     "midpoint: interior O(h^2) plus a window-edge term of h/2 times the integrand at the window edge",
     "slit with both length and width: the documented 61-point equal-weight rule across the width is part of the "
     "definition; its distance from the continuous double integral is bounded by 1.5/61 of the variation across the width",
-    "pinhole windows lie above the 0.02*q_min cut; slit windows with W >= q are folded at q = 0 (|q+v|) and the "
+    "pinhole windows with q < 2.5 sigma reach below zero: the reference folds I(|q'|) with the Gaussian weight of q'; "
+    "the 0.02*q_min cut of |q_calc| permits no deficit for pinhole (the Gaussian mass of the gap is kept by the "
+    "neighbouring bins and columns are renormalised) but evaluates that mass up to cut+h away from its own |q'|, which "
+    "is a stated non-shrinking term M1 (c+h)(2c+3h) max g in the bound; slit windows with W >= q are folded at q = 0 (|q+v|) and the "
     "reference integrates only |q'| >= c = 0.02*q_min, the documented lower limit of q_calc: the permitted deficit "
     "against the uncut integral is the measure of the window below c (width-only: (c - max(q-W,0))^+ plus min(c, W-q) "
     "for the folded part, over 2W); the first bin edge lies within h/2 of c, which adds h/2 times the integrand at c "
@@ -58,6 +61,9 @@ BOUNDS = {
               "slit_length_over_qmid": [0.1, 0.8, 5.0], "slit_width_over_qmin": [0.05, 0.3, 0.7],
               "slit_both": "(L/qmid, W/qmin) in (0.8, 0.1), (0.1, 0.5), (5, 0.3)",
               "slit_width_folded_over_qmin": [5.0, 2.3, 1.2, 1.0],
+              "pinhole_folded_q_over_sigma": [0.4, 1.0, 2.0, 2.5],
+              "pinhole_default_grid": "data = linspace(qref, 6 qref, n), n = 31, 61, 121, sigma = q/ratio for the folded "
+                                      "ratios, q_calc=None (default extension); 7 data points judged per n",
               "slit_both_folded": "(L/qmid, W/qmin) in (0.8, 5), (0.3, 1.2), (2, 1), (0.1, 2.3)",
               "intensities": ["const", "linear", "quadratic", "lorentz2", "dampedcos"],
               "accuracy": ACCURACIES, "sigma2d_over_q": [[0.1, 0.03], [0.03, 0.1], [0.2, 0.05], [0.08, 0.08]],
@@ -77,6 +83,8 @@ BOTH_SETS = [(0.8, 0.1), (0.1, 0.5), (5.0, 0.3)]
 # folded windows: W exceeds some of the data q (q = qref*(1, 2.3, 6)): 5q0 folds two points, 2.3q0 is exactly q[1]
 # and folds q[0], 1.2q0 folds q[0] only, 1.0q0 is exactly q[0] (window ends on q = 0)
 FOLD_WID_SETS = [5.0, 2.3, 1.2, 1.0]
+# folded pinhole windows: q/sigma < 2.5 puts part of [q-2.5s, q+3s] below zero; 2.5 ends the window on q = 0
+FOLD_PIN_RATIOS = [0.4, 1.0, 2.0, 2.5]
 FOLD_BOTH_SETS = [(0.8, 5.0), (0.3, 1.2), (2.0, 1.0), (0.1, 2.3)]
 FN_NAMES = ["const", "linear", "quadratic", "lorentz2", "dampedcos"]
 SIG2D = [(0.1, 0.03), (0.03, 0.1), (0.2, 0.05), (0.08, 0.08)]
@@ -100,6 +108,9 @@ def cases(ctx):
     for fn in FN_NAMES:
         for rel in PIN_SETS + ([0.05, 0.2] if more else []):
             out.append({"kind": "pinhole", "rel": rel, "fn": fn, "qref": qref, "offset": off})
+        for ratio in FOLD_PIN_RATIOS:
+            out.append({"kind": "pinhole", "rel": 1.0 / ratio, "fn": fn, "qref": qref, "offset": off})
+            out.append({"kind": "pinhole-default", "ratio": ratio, "fn": fn, "qref": qref})
         for L in LEN_SETS + ([0.3, 2.0] if more else []):
             out.append({"kind": "slit-length", "L": L, "W": 0.0, "fn": fn, "qref": qref, "offset": off})
         for W in WID_SETS + ([0.15, 0.5] if more else []):
@@ -198,33 +209,56 @@ def _finish_levels(cv, r, errs, bounds, hs, what, limit=0.3):
 # pinhole
 
 def pinhole_exact(t, qi, si):
+    """truncated, renormalised Gaussian times I(|q'|) over [q-2.5s, q+3s] (the part below zero is folded, keeping
+    the weight of q')"""
     lo, hi = qi - H.NSIG_LOW * si, qi + H.NSIG_HIGH * si
     g = lambda x: math.exp(-0.5 * ((x - qi) / si) ** 2) / (si * math.sqrt(2 * math.pi))
-    num, e1 = _quad(lambda x: float(t.f(abs(x))) * g(x), lo, hi, points=[qi])
+    num, e1 = _quad(lambda x: float(t.f(abs(x))) * g(x), lo, hi, points=[qi] + ([0.0] if lo < 0 < hi else []))
     den = 0.5 * (math.erf(H.NSIG_HIGH / math.sqrt(2)) + math.erf(H.NSIG_LOW / math.sqrt(2)))
     return num / den, e1 / den
 
 
-def pinhole_bound(t, qi, si, h, exact):
+def _abs_range(lo, hi):
+    """range of |x| for x in [lo, hi]"""
+    if lo >= 0:
+        return lo, hi
+    return 0.0, max(-lo, hi)
+
+
+def pinhole_bound(t, qi, si, h, exact, cut=0.0, junctions=0):
     """
-    midpoint rule with exact Gaussian bin masses over the bins whose midpoint lies in W = [lo, hi]:
+    midpoint rule with exact Gaussian bin masses over the bins whose midpoint lies in W = [lo, hi]; h = largest
+    spacing of the (signed) calculation grid:
       interior:  [M1 h^2/12 (2 g(0) + 4 h max|g'|) + M2 h^2/8] / m          (Taylor about each midpoint)
-      edges:     (h/2) [max_{|x-lo|<=h/2} |f - B| g + max_{|x-hi|<=h/2} |f - B| g] / m   (B = exact value)
+      edges:     d [max_{|x-lo|<=d} |f - B| g + max_{|x-hi|<=d} |f - B| g] / m,  d = h/2   (B = exact value)
+      near zero: the code evaluates nothing at |q'| < cut = 0.02 q_min; the Gaussian mass of the gap is kept (the
+                 neighbouring bins grow over it), so no deficit is permitted, but the mass within
+                 [-cut-1.5h, cut+1.5h] is evaluated up to cut+h away from its own |q'| (and I(|q'|) has a kink at 0):
+                 M1 (cut+h) (2 cut+3h) max g / m; a window edge inside the gap is located to cut+h instead of h/2
+      junctions: a default grid changes its spacing at the ends of the data, where the sample is not the bin
+                 centre: M1 (h/4) h g(0) per junction bin (2 bins per junction)
     with m >= 0.97 the mass of the selected bins; inflated by 10 %.
     """
     lo, hi = qi - H.NSIG_LOW * si, qi + H.NSIG_HIGH * si
-    m1 = H.sup_abs(t.d1, lo - h, hi + h)
-    m2 = H.sup_abs(t.d2, lo - h, hi + h)
+    a, b = _abs_range(lo - h, hi + h)
+    m1 = H.sup_abs(t.d1, a, b)
+    m2 = H.sup_abs(t.d2, a, b)
     g0 = 1.0 / (si * math.sqrt(2 * math.pi))
     g1 = math.exp(-0.5) * g0 / si
+    gauss = lambda x: np.exp(-0.5 * ((x - qi) / si) ** 2) * g0
     interior = (m1 * h * h / 12.0 * (2 * g0 + 4 * h * g1) + m2 * h * h / 8.0)
 
     def edge(c):
-        x = np.linspace(c - h / 2, c + h / 2, 21)
-        g = np.exp(-0.5 * ((x - qi) / si) ** 2) * g0
-        return float(np.max(np.abs(t.f(np.abs(x)) - exact) * g))
-    edges = 0.5 * h * (edge(lo) + edge(hi))
-    return 1.1 * (interior + edges) / 0.97
+        d = cut + h if (cut > 0 and abs(c) < cut + h) else 0.5 * h
+        x = np.linspace(c - d, c + d, 41)
+        return d * float(np.max(np.abs(t.f(np.abs(x)) - exact) * gauss(x)))
+    edges = edge(lo) + edge(hi)
+    zero = 0.0
+    if cut > 0 and lo - h < cut:
+        x = np.linspace(-cut - 1.5 * h, cut + 1.5 * h, 41)
+        zero = H.sup_abs(t.d1, 0.0, cut + 2 * h, 41) * (cut + h) * (2 * cut + 3 * h) * float(np.max(gauss(x)))
+    junc = junctions * 2 * m1 * 0.25 * h * h * g0
+    return 1.1 * (interior + edges + zero + junc) / 0.97
 
 
 def run_pinhole(case, ctx, r):
@@ -239,18 +273,25 @@ def run_pinhole(case, ctx, r):
     ex = [pinhole_exact(t, q[i], sig[i]) for i in range(3)]
     h0 = min(sig.min() * 5.5 / 40.0, q.min() / 20.0)
     lo, hi = float(np.min(q - H.NSIG_LOW * sig)), float(np.max(q + H.NSIG_HIGH * sig))
-    if lo <= H.MIN_ABS_Q * q.min():
-        raise HarnessError("pinhole window reaches the low-q cut")
+    c = H.MIN_ABS_Q * q.min()
+    low = lo - 4 * h0 * max(_levels(ctx)) <= c          # some window (or its grid margin) reaches the cut / folds
     errs, bnds, hs = [], [], []
     for lev in _levels(ctx):
         h = h0 * lev
-        qc = _grid(lo, hi, h, case.get("offset", 1 / 3.0))
+        if low:
+            # uniform signed grid h*(offset + k), k from negative values: contains negative q
+            k0 = int(math.floor((lo - 3 * h) / h))
+            qc = h * (case.get("offset", 1 / 3.0) + np.arange(k0, int(math.ceil((hi + 3 * h) / h)) + 1))
+        else:
+            qc = _grid(lo, hi, h, case.get("offset", 1 / 3.0))
         res = resolution.Pinhole1D(q.copy(), sig.copy(), q_calc=qc)
         with np.errstate(all="ignore"):
             got = np.asarray(res.apply(t.f(np.asarray(res.q_calc, float))), float)
         e, b = [], []
         for i in range(3):
-            bound = pinhole_bound(t, q[i], sig[i], h, ex[i][0])
+            bound = pinhole_bound(t, q[i], sig[i], h, ex[i][0], cut=c if low else 0.0)
+            if q[i] - H.NSIG_LOW * sig[i] < 0:
+                r.branch("pinhole-window-folded")
             e.append(_judge(cv, r, i, q[i], h, got[i], ex[i][0], bound, float(t.f(q[i])), ex[i][1], "Pinhole1D.apply(f)"))
             b.append(bound)
         errs.append(e)
@@ -260,6 +301,8 @@ def run_pinhole(case, ctx, r):
     if case["fn"] not in ("const",):
         _finish_levels(cv, r, errs, bnds, hs, desc)
     r.branch("pinhole")
+    if low:
+        r.branch("pinhole:folded")
     if not r.samples:
         r.sample({"call": desc, "h": hs, "abs_error_point0": [None if e[0] is None else float(e[0]) for e in errs],
                   "bound_point0": [float(b[0]) for b in bnds], "exact_point0": float(ex[0][0])})
@@ -298,6 +341,51 @@ def slit_both_exact(t, qi, L, W, cut=0.0):
     pts = [p for p in (-qi - cut, -qi, -qi + cut) if -W < p < W] if qi - W < cut else None
     dbl, e2 = _quad(lambda v: slit_length_exact(t, abs(qi + v), L, cut)[0], -W, W, points=pts)
     return avg61, dbl / (2 * W), max(max(ek), e2 / (2 * W)), float(Fk.max() - Fk.min())
+
+
+def run_pinhole_default(case, ctx, r):
+    """default-extended q_calc (q_calc=None): a uniform data set with per-point sigma = q/ratio; the extension uses
+    the data spacing, so the largest spacing of the signed grid is the data spacing h"""
+    from sasmodels import resolution
+    q0, ratio = case["qref"], case["ratio"]
+    t = _fn(case["fn"], 2.3 * q0)
+    fk = {"class": "Pinhole1D", "fn": case["fn"], "widths": "sigma=q/%g" % ratio, "qcalc": "default"}
+    desc = "Pinhole1D(q=linspace(%r, %r, n), q_width=q/%r, q_calc=None)  f=%s" % (q0, 6 * q0, ratio, case["fn"])
+    cv = Conv(r, fk, desc)
+    c = H.MIN_ABS_Q * q0
+    cache = {}
+    errs, bnds, hs = [], [], []
+    for n in ([31, 61, 121] if ctx.quick else [31, 61, 121, 241]):
+        q = np.linspace(q0, 6 * q0, n)
+        sig = q / ratio
+        h = float(q[1] - q[0])
+        with warnings.catch_warnings():
+            warnings.simplefilter("ignore")
+            res = resolution.Pinhole1D(q.copy(), sig.copy())
+        with np.errstate(all="ignore"):
+            got = np.asarray(res.apply(t.f(np.asarray(res.q_calc, float))), float)
+        e, b = [], []
+        for frac in range(7):
+            i = frac * (n - 1) // 6
+            if frac not in cache:
+                cache[frac] = pinhole_exact(t, q[i], sig[i])
+            exact, qerr = cache[frac]
+            bound = pinhole_bound(t, q[i], sig[i], h, exact, cut=c, junctions=2)
+            if q[i] - H.NSIG_LOW * sig[i] < 0:
+                r.branch("pinhole-window-folded")
+            e.append(_judge(cv, r, i, q[i], h, got[i], exact, bound, float(t.f(q[i])), qerr,
+                            "Pinhole1D(default q_calc).apply(f)"))
+            b.append(bound)
+        errs.append(e)
+        bnds.append(b)
+        hs.append(h)
+        r.trans += 1
+    if case["fn"] != "const":
+        _finish_levels(cv, r, errs, bnds, hs, desc, 0.45)
+    r.branch("pinhole-default")
+    if not r.samples:
+        r.sample({"call": desc, "h": hs, "abs_error_point0": [None if e[0] is None else float(e[0]) for e in errs],
+                  "bound_point0": [float(b[0]) for b in bnds]})
 
 
 def run_slit(case, ctx, r):
@@ -475,6 +563,8 @@ def run_case(case, ctx):
     try:
         if kind == "pinhole":
             run_pinhole(case, ctx, r)
+        elif kind == "pinhole-default":
+            run_pinhole_default(case, ctx, r)
         elif kind.startswith("slit"):
             run_slit(case, ctx, r)
         elif kind == "p2d":
@@ -492,6 +582,9 @@ def finish(ctx, report):
     for a in ACCURACIES:
         report.require("p2d:" + a, len(SIG2D) * len(FORMS2D), "2-D accuracy level")
     report.require("nontrivial", 500, "smeared value differs from the unsmeared one")
+    report.require("pinhole:folded", 20, "pinhole width sets whose windows reach q <= 0 (user grids with negative q)")
+    report.require("pinhole-default", 20, "pinhole with the default-extended grid")
+    report.require("pinhole-window-folded", 300, "pinhole data points with q < 2.5 sigma (window folded at q = 0)")
     report.require("slit-width:folded", 15, "width-only slit with W >= q (window folded at q = 0)")
     report.require("slit-both:folded", 15, "width+length slit with W >= q (window folded at q = 0)")
     report.require("folded-window", 100, "data points whose window is folded at q = 0 (q < W)")
